@@ -26,6 +26,8 @@ func init() {
 		Run: runC07,
 	})
 	addMutants("C07",
+		mutant{"incomplete payload reserves half of it", "codec/websocket/frame_codec.go",
+			"\t\tsrc.Reserve(payloadLength) // payload", "\t\tsrc.Reserve(payloadLength / 2) // payload", "C07-R2"},
 		mutant{"negative 64-bit lengths pass", "codec/websocket/frame_codec.go",
 			"if payloadLength < 0 || payloadLength > c.maxMessageSize {", "if payloadLength > c.maxMessageSize {", "C07-R1"},
 		mutant{"limit checked after the payload was requested", "codec/websocket/frame_codec.go",
@@ -375,6 +377,32 @@ func runC07(c *Ctx) {
 	}
 
 	// ------------------------------------------------------------------------------------------------ R3
+	// room for the rest: when the payload is incomplete the buffer is asked for at least the declared payload length
+	// (a smaller reservation can leave a frame that never fits: the read loop then spins on a full buffer)
+	{
+		var plen ssa.Value
+		eachInstr(dec, func(in ssa.Instruction) {
+			if call, ok := in.(*ssa.Call); ok && call.Call.StaticCallee() != nil && call.Call.StaticCallee().Name() == "PayloadLength" && plen == nil {
+				plen = call
+			}
+		})
+		for _, rc := range callsToFn(dec, reserve) {
+			arg := rc.Common().Args[1]
+			var atLeast func(v ssa.Value, d int) bool
+			atLeast = func(v ssa.Value, d int) bool {
+				v = stripConv(v)
+				if v == plen {
+					return true
+				}
+				if bo, ok := v.(*ssa.BinOp); ok && bo.Op == token.ADD && d < 4 {
+					return atLeast(bo.X, d+1) || atLeast(bo.Y, d+1)
+				}
+				return false
+			}
+			c.check(plen != nil && atLeast(arg, 0), dec, "reserve for the payload", rc.Pos(), "reserves at least the declared payload length", "an incomplete payload reserves less than the declared payload length: a frame larger than the remaining buffer space can never be completed (the next reads find no room)")
+		}
+	}
+
 	c.rule("C07-R3", "encode/decode length tables agree with each other and with RFC 6455 section 5.2", 3)
 	checkLengthTables(c, "C07")
 	_ = reserve
